@@ -1,4 +1,6 @@
 import PkLA.Lmi
+import PkLA.NormEpigraph
+import PkLA.SvdExists
 import PkLA.Ridge
 import PkLA.DmdcLmi
 import Mathlib.LinearAlgebra.Matrix.PosDef
@@ -76,31 +78,44 @@ theorem C12_tikhonov_is_edmd {q : Type} [Fintype q] (Ψ : Matrix m q ℝ) (Θ : 
 /-- two-norm block (soundness): `[[γI, Uᵀ],[U, γI]] ⪰ 0` with `γ > 0` forces `‖Ux‖² ≤ γ²‖x‖²` for every `x`,
 i.e. the slack `γ` really bounds the matrix two-norm -/
 theorem C12_twonorm_sound (γ : ℝ) (hγ : 0 < γ) (U : Matrix n m ℝ) (h : (twoNormLmi γ U).PosSemidef) (x : m → ℝ) :
-    (U *ᵥ x) ⬝ᵥ (U *ᵥ x) ≤ γ^2 * (x ⬝ᵥ x) := by
-  have key := (Matrix.posSemidef_iff_dotProduct_mulVec.mp h).2 (Sum.elim (γ • x) (-(U *ᵥ x)))
-  simp only [twoNormLmi, star_trivial, fromBlocks_mulVec, sumElim_dotProduct_sumElim, Sum.elim_comp_inl,
-    Sum.elim_comp_inr] at key
-  have e1 : x ⬝ᵥ (Uᵀ *ᵥ (U *ᵥ x)) = (U *ᵥ x) ⬝ᵥ (U *ᵥ x) := by
-    rw [dotProduct_mulVec, vecMul_transpose]
-  simp only [smul_mulVec, one_mulVec, mulVec_smul, mulVec_neg, dotProduct_add, smul_dotProduct,
-    dotProduct_smul, neg_dotProduct, dotProduct_neg, smul_eq_mul, e1] at key
-  have : 0 ≤ γ * (γ^2 * (x ⬝ᵥ x) - (U *ᵥ x) ⬝ᵥ (U *ᵥ x)) := by nlinarith [key]
-  have := nonneg_of_mul_nonneg_right this hγ
-  linarith
+    (U *ᵥ x) ⬝ᵥ (U *ᵥ x) ≤ γ^2 * (x ⬝ᵥ x) := twonorm_sound γ hγ U h x
 
-/-- nuclear-norm block, one direction only: feasibility of `[[W₁, U],[Uᵀ, W₂]] ⪰ 0` gives
-`2 |xᵀ U y| ≤ xᵀW₁x + yᵀW₂y` for all `x, y` (from which `‖U‖_* ≤ (tr W₁ + tr W₂)/2` follows via the SVD; that last
-step and the converse are NOT proved) -/
+/-- … and conversely: the two-norm block is EXACTLY the epigraph of the matrix two-norm (`γ ≥ 0`) -/
+theorem C12_twonorm_epigraph (γ : ℝ) (hγ : 0 ≤ γ) (U : Matrix n m ℝ) :
+    (twoNormLmi γ U).PosSemidef ↔ ∀ x : m → ℝ, (U *ᵥ x) ⬝ᵥ (U *ᵥ x) ≤ γ^2 * (x ⬝ᵥ x) :=
+  twonorm_epigraph_nonneg γ hγ U
+
+/-- nuclear-norm block, the inequality behind it: feasibility of `[[W₁, U],[Uᵀ, W₂]] ⪰ 0` gives
+`2 |xᵀ U y| ≤ xᵀW₁x + yᵀW₂y` for all `x, y` -/
 theorem C12_nuclear_partial (W1 : Matrix n n ℝ) (U : Matrix n m ℝ) (W2 : Matrix m m ℝ)
     (h : (nuclearLmi W1 U W2).PosSemidef) (x : n → ℝ) (y : m → ℝ) :
-    2 * (x ⬝ᵥ (U *ᵥ y)) ≤ x ⬝ᵥ (W1 *ᵥ x) + y ⬝ᵥ (W2 *ᵥ y) := by
-  have key := (Matrix.posSemidef_iff_dotProduct_mulVec.mp h).2 (Sum.elim x (-y))
-  simp only [nuclearLmi, star_trivial, fromBlocks_mulVec, sumElim_dotProduct_sumElim, Sum.elim_comp_inl,
-    Sum.elim_comp_inr] at key
-  have e1 : y ⬝ᵥ (Uᵀ *ᵥ x) = x ⬝ᵥ (U *ᵥ y) := by
-    rw [dotProduct_mulVec, vecMul_transpose, dotProduct_comm]
-  simp only [mulVec_neg, dotProduct_add, neg_dotProduct, dotProduct_neg, e1, neg_neg] at key
-  linarith
+    2 * (x ⬝ᵥ (U *ᵥ y)) ≤ x ⬝ᵥ (W1 *ᵥ x) + y ⬝ᵥ (W2 *ᵥ y) := nuclear_partial W1 U W2 h x y
+
+/-- **the nuclear-norm block is exactly the epigraph of the nuclear norm**: for `U` with singular value
+decomposition `Q diag(s) Zᵀ` (orthonormal columns, `s ≥ 0`; every real matrix has one: `C12_nuclear_epigraph_exists`) the slack `(tr W₁ + tr W₂)/2` can be pushed down to `Σ σ_i` and no further -/
+theorem C12_nuclear_epigraph {r : Type} [Fintype r] [DecidableEq r] (U : Matrix n m ℝ) (Q : Matrix n r ℝ)
+    (Z : Matrix m r ℝ) (s : r → ℝ) (hQ : Qᵀ * Q = 1) (hZ : Zᵀ * Z = 1) (hU : U = Q * diagonal s * Zᵀ)
+    (hs : ∀ i, 0 ≤ s i) (γ : ℝ) :
+    (∃ (W1 : Matrix n n ℝ) (W2 : Matrix m m ℝ), (nuclearLmi W1 U W2).PosSemidef ∧ W1.trace + W2.trace ≤ 2 * γ)
+      ↔ ∑ i, s i ≤ γ := nuclear_epigraph U Q Z s hQ hZ hU hs γ
+
+/-- … and every real matrix HAS such a decomposition (`PkLA.exists_svd`, from the spectral theorem for `UᵀU`), so
+unconditionally: for every `U` there are non-negative numbers `σ_i` (its singular values: `U = Q diag(σ) Zᵀ` with
+orthonormal columns) such that the nuclear-norm block is feasible with slack `γ` iff `Σ σ_i ≤ γ` -/
+theorem C12_nuclear_epigraph_exists (U : Matrix n m ℝ) :
+    ∃ (r : Type) (_ : Fintype r) (_ : DecidableEq r) (Q : Matrix n r ℝ) (Z : Matrix m r ℝ) (s : r → ℝ),
+      Qᵀ * Q = 1 ∧ Zᵀ * Z = 1 ∧ (∀ i, 0 < s i) ∧ U = Q * diagonal s * Zᵀ ∧
+      ∀ γ : ℝ, (∃ (W1 : Matrix n n ℝ) (W2 : Matrix m m ℝ),
+          (nuclearLmi W1 U W2).PosSemidef ∧ W1.trace + W2.trace ≤ 2 * γ) ↔ ∑ i, s i ≤ γ := by
+  obtain ⟨r, fr, dr, Q, Z, s, hQ, hZ, hs, hU⟩ := exists_svd U
+  exact ⟨r, fr, dr, Q, Z, s, hQ, hZ, hs, hU,
+    fun γ => nuclear_epigraph U Q Z s hQ hZ hU (fun i => le_of_lt (hs i)) γ⟩
+
+/-- forward half on its own: any feasible slack dominates `Σ σ_i` -/
+theorem C12_nuclear_trace_bound {r : Type} [Fintype r] [DecidableEq r] (W1 : Matrix n n ℝ) (U : Matrix n m ℝ)
+    (W2 : Matrix m m ℝ) (Q : Matrix n r ℝ) (Z : Matrix m r ℝ) (s : r → ℝ) (hQ : Qᵀ * Q = 1) (hZ : Zᵀ * Z = 1)
+    (hU : U = Q * diagonal s * Zᵀ) (h : (nuclearLmi W1 U W2).PosSemidef) :
+    ∑ i, s i ≤ (W1.trace + W2.trace) / 2 := nuclear_trace_bound W1 U W2 Q Z s hQ hZ hU h
 
 /-! ### `LmiDmdc`: the same cost in the coordinates of the two truncated SVDs -/
 section dmdc
